@@ -558,7 +558,11 @@ std::ostream& type_t::print_declaration(std::ostream& os) const
 
     if (range) {
         get(0).print_declaration(os);
-        if (get_range().first.get_value() != INT16_MIN || get_range().second.get_value() != INT16_MAX) {
+        const auto [lower, upper] = get_range();
+        const bool default_range = lower.get_kind() == CONSTANT && upper.get_kind() == CONSTANT &&
+                                   lower.get_type().is_integer() && upper.get_type().is_integer() &&
+                                   lower.get_value() == INT16_MIN && upper.get_value() == INT16_MAX;
+        if (!default_range) {
             os << "[";
             get_range().first.print(os) << ",";
             get_range().second.print(os) << "]";
